@@ -105,7 +105,7 @@ void m_reject_then_accept(void) {
     EbComponentType *h = mk_handle();
     EbSvtAv1EncConfiguration bad, good;
     fill_config(&bad);   /* arbitrary configuration, field by field */
-    V_ASSUME(bad.manual_pred_struct_entry_num <= 2 || bad.manual_pred_struct_entry_num > 32);
+    V_ASSUME(!bad.enable_manual_pred_struct);   /* manual prediction structures: separate (thorough) query */
     EbErrorType r1 = svt_av1_enc_set_parameter(h, &bad);
     V_ASSERT(mtx_cfg == 0, "configuration mutex released when set_parameter returns (any outcome)");
     svt_svt_enc_init_parameter(&good);
